@@ -430,6 +430,7 @@ func TestBACReauthentication(t *testing.T) {
 		restore := chiptest.InstallLibRand(rt, "librand")
 		defer restore()
 		hostileSecond := rapid.Bool().Draw(rt, "second-run-impostor")
+		replaySecond := !hostileSecond && rapid.IntRange(0, 2).Draw(rt, "second-run-replay") == 0
 		pass, err := makePassword(m, kind)
 		repro := map[string]any{"mrz": m.Full, "pwkind": int(kind), "refInfo": m.Info, "secondRunImpostor": hostileSecond}
 		if err != nil {
@@ -461,6 +462,27 @@ func TestBACReauthentication(t *testing.T) {
 			}
 			return
 		}
+		if replaySecond {
+			// a card emulator that recorded run 1 on the air replays the chip's two responses verbatim
+			// (RND.IC and the EXTERNAL AUTHENTICATE response): fresh terminal randoms make that fail
+			var rec [][]byte
+			for _, ex := range chip.Transcript {
+				if ex.INS == 0x84 || ex.INS == 0x82 {
+					rec = append(rec, bytes.Clone(ex.Rsp))
+				}
+			}
+			if len(rec) < 2 {
+				evid.Infra(rt, "run 1 transcript holds %d BAC responses", len(rec))
+			}
+			rp := &replayer{rsp: rec[:2]}
+			lk.t = rp
+			res2, err2 := b.DoBAC()
+			evid.Case("reauth-replayed-first-run", true, m.Info, repro)
+			if msg := checkRefused(&session{chip, nfc, res2, err2}); msg != "" {
+				evid.Fail(rt, "reauth-replay", repro, "second run of the same BAC object against an emulator replaying the chip's responses of the first run: %s", msg)
+			}
+			return
+		}
 		chip2 := chipsim.New(cfg)
 		lk.t = chip2
 		res2, err2 := b.DoBAC()
@@ -470,6 +492,67 @@ func TestBACReauthentication(t *testing.T) {
 		}
 		if bytes.Equal(chip2.SM.KEnc, ks1enc) {
 			evid.Fail(rt, "reauth-second", repro, "the second run ended with the session key of the first")
+		}
+	})
+}
+
+// replayer answers GET CHALLENGE and EXTERNAL AUTHENTICATE with recorded responses.
+type replayer struct {
+	rsp [][]byte
+	n   int
+}
+
+func (r *replayer) Transceive(cla, ins, p1, p2 int, data []byte, le int, encoded []byte) []byte {
+	if (ins == 0x84 || ins == 0x82) && r.n < len(r.rsp) {
+		r.n++
+		return bytes.Clone(r.rsp[r.n-1])
+	}
+	return []byte{0x69, 0x82}
+}
+
+// TestBACCorrectedPassword: one password object is used for a first attempt with mistyped data
+// (the chip refuses), its exported fields are corrected in place, and the retry - with the same
+// object - must open the chip; conversely an object that opened the chip once must stop doing so
+// when its data is replaced by another document's.
+func TestBACCorrectedPassword(t *testing.T) {
+	evid.RapidCheck(t, 1600, 40000, func(rt *rapid.T) {
+		m := chiptest.DrawMRZ(rt)
+		other := chiptest.DrawMRZ(rt)
+		if other.Info == m.Info {
+			rt.Skip("same MRZ information")
+		}
+		chipRand := chiptest.DrawRand(rt, "chiprand")
+		restore := chiptest.InstallLibRand(rt, "librand")
+		defer restore()
+		wrongFirst := rapid.Bool().Draw(rt, "wrong-first")
+		first, second := m, other
+		if wrongFirst {
+			first, second = other, m
+		}
+		pass, err := password.NewPasswordMrzi(first.DocNo, first.DOB, first.Expiry)
+		if err != nil {
+			evid.Fail(rt, "corrected-password", nil, "library rejects valid key fields: %v", err)
+		}
+		repro := map[string]any{"chipMRZInfo": m.Info, "firstAttempt": first.Info, "secondAttempt": second.Info}
+		s1 := runBAC(m, pass, m.Info, chipRand, nil)
+		// correct / replace the data in place (the fields are exported; the object is the caller's)
+		pass.Password = second.Info
+		s2 := runBAC(m, pass, m.Info, chipRand, nil)
+		evid.Case(map[bool]string{true: "password-corrected-in-place", false: "password-replaced-in-place"}[wrongFirst], true, m.Info+other.Info, repro)
+		if wrongFirst {
+			if msg := checkRefused(s1); msg != "" {
+				return // owned by TestBACWrongPassword
+			}
+			if msg := checkEstablished(s2, m); msg != "" {
+				evid.Fail(rt, "corrected-password", repro, "after the password object's data was corrected in place: %s", msg)
+			}
+		} else {
+			if msg := checkEstablished(s1, m); msg != "" {
+				return
+			}
+			if msg := checkRefused(s2); msg != "" {
+				evid.Fail(rt, "corrected-password", repro, "the password object now holds another document's data, yet: %s", msg)
+			}
 		}
 	})
 }
